@@ -90,6 +90,14 @@ CHECKS["C20"] = dict(
     ref="DESIGN.md 5.C20",
 )
 
+CHECKS["C02"] = dict(
+    engine="symx+z3",
+    technique="bounded symbolic execution (symx/z3): f_lasti symbolic over the measured resting offsets of every reachable call-type instruction of each compiled code object, real contexts_active_in_frame with the inspect_frame model in running mode (stack trimmed by the real for/else slice); oracle = tagged abstract interpretation",
+    text="For every code object of the running-frame corpus (plain functions, generators, coroutines, async generators; quick ~830, thorough ~6500) and every reachable CALL / BEFORE_WITH / WITH_EXCEPT_START / SEND at each measured resting offset: a manager whose __enter__/__aenter__ is running is not listed, one whose __exit__/__aexit__ is running is listed last with is_exiting and obj set, everything else exact. CPython 3.12 only.",
+    note="Resting offsets are measured by real probes in the run and every real probe must rest at a tabled offset (else exit 2); the abstract interpreter is validated against the event log at every real probe. F2 sites reported as KNOWN-FINDING. Counterexamples are replayed with probes calling the real analysis on the really running frame.",
+    ref="DESIGN.md 5.C02",
+)
+
 NOT_APPLICABLE = {
     "C06": "Quantifies over interpreter bookkeeping (reference counts, object lifetime, crashes) behind a ctypes boundary; no value a solver can range over, and any symbolic engine perturbs the very refcounts measured (DESIGN.md 5.C06).",
     "C07": "OS-thread interleavings against raw-memory reads; depends on when CPython releases the GIL, not on Python-level data; needs a runtime schedule controller, a different technique family (DESIGN.md 5.C07).",
